@@ -31,9 +31,9 @@ INFO = {
     ],
     "assumptions": [
         "Python attribute lookup is modelled as: instance dict, then first class along the MRO; functions found on a class are bound to the instance they are looked up through",
-        "a plain value in a class dict is never re-bound on access (true for data, bound methods, staticmethods; NOT for a plain function "
-        "stored un-wrapped on a class, which is what augment-of-an-augmented-MDP does with a previously overridden component: open defect, "
-        "reported by the harness under C15:augment:of-derived-mdp:overridden-component-unusable, model not compared on those derivations)",
+        "a plain value in a class dict is never re-bound on access: augment stores overrides AND the copies of non-overridden components as "
+        "staticmethod (since /repo b30f659), data and bound methods are never re-bound; re-derivations (augment / sub_task / Option.run_on on a "
+        "derived, used MDP) are generated and compared; signature C15:augment:of-derived-mdp:overridden-component-unusable guards the old defect",
         "random.Random is not modelled: a simulation is a function of the explicit (action, next state) choice stream",
     ],
 }
@@ -232,6 +232,19 @@ def gen_base(rng, nmax, list_actions=False, used=False, min_states=2):
     return base
 
 
+def eff_tables(case):
+    """tables of the MDP an option of a run case is executed on (the base, or an MDP derived from it)"""
+    T = case["base"]["tables"]
+    df = case.get("derive_first")
+    if not df:
+        return T
+    m = {"next_state_dist": "trans", "reward": "rew", "is_absorbing": "absorbing", "initial_state_dist": "init", "actions": "actions"}
+    T = dict(T)
+    for k in df["keys"]:
+        T[m[k]] = df["alt"][m[k]]
+    return T
+
+
 def base_discount(base):
     g = base["gammas"]
     for k in ("inst", "cls0", "cls1"):
@@ -287,6 +300,7 @@ def gen_used(rng, tier):
     st = gen_subtask(rng, tier, base=base)
     derive.append({"how": "sub_task", "initial_states": st["initial_states"] or [0],
                    "subgoals": st["subgoals"], "include": st["include"], "maxr": st["maxr"], "name": st["name"]})
+    derive.append(dict(derive[-1], how="sub_task_of_derived", keys1=rng.sample(COMPONENTS, rng.randint(1, 3))))
     return {"kind": "used", "base": base, "alt": alt, "derive": derive}
 
 
@@ -312,7 +326,14 @@ def gen_run(rng, tier):
     s0 = rng.randrange(T["n"])
     if rng.random() < .1:
         opt["terminal"][s0] = True             # started in a state that is already terminal for it
-    return {"kind": "run", "base": base, "option": opt, "s0": s0, "seed": rng.choice([0, rng.randrange(2 ** 31)]),
+    derive_first = None
+    if rng.random() < .35:
+        # the option is run on a DERIVED MDP (Option.run_on augments an augmented MDP)
+        derive_first = {"keys": rng.sample(["next_state_dist", "reward", "is_absorbing", "initial_state_dist"], rng.randint(1, 3)),
+                        "alt": gen_tables(rng, 5, n=T["n"], nA=T["nA"], min_states=1)}
+        if base["lists"] and base["lists"]["where"] == "inferred":
+            base["lists"]["where"] = "inst"    # overridden dynamics may leave an INFERRED (reachable-only) state list: keep it explicit here
+    return {"kind": "run", "base": base, "option": opt, "s0": s0, "derive_first": derive_first, "seed": rng.choice([0, rng.randrange(2 ** 31)]),
             "natural_cap": 40, "ms_abs": rng.sample([0, 1, 2, 3, 4, 6], 3), "ms_rel": [-1, 0, 1, 2, 3, 5]}
 
 
@@ -637,12 +658,10 @@ class Checker:
             d_i = norm_impl_dump(rep)
             v_i = self.norm_views(rep["views"])
             clause = None
-            if d["how"] == "augment2":
-                # GENUINE msdm DEFECT (reported): a component overridden in the first derivation and NOT overridden in the second
-                # is a plain function on the first class; `AugmentedMDP.x = mdp.x` stores it un-wrapped on the second class,
-                # Python binds it as a method and every call raises TypeError.  model/Option.v treats plain class values as
-                # never re-bound, so the model is not compared on these derivations while the defect is open.
-                lost = [k for k in d["keys1"] if k not in d["keys"] and d_i[KEY2DUMP[k]] == "ERR"]
+            if d["how"] in ("augment2", "sub_task_of_derived"):
+                # regression guard for the defect fixed by /repo b30f659: a component overridden in a first derivation and not in the
+                # second was stored as a plain function on the second class, got bound as a method, and every call raised TypeError
+                lost = [k for k in d["keys1"] if k not in d.get("keys", []) and d_i[KEY2DUMP[k]] == "ERR"]
                 if lost:
                     self.violation(SIG_REDERIVE, dict(detail, unusable_components=lost, impl=rep,
                                    clause="component overridden in a first augment is unusable (TypeError) on an MDP derived from that derived MDP"),
@@ -659,6 +678,12 @@ class Checker:
                     if d_i[dk] != want:
                         clause = "component %s of the MDP derived from a used base is not the %s" % (k, "override" if k in ovk else "base MDP's")
                         break
+            elif d["how"] == "sub_task_of_derived":
+                self.bump("used_subtask_of_derived")
+                k1 = d["keys1"]
+                if d_i["discount"] != base_i["discount"] or d_i["trans"] != (alt["trans"] if "next_state_dist" in k1 else base_i["trans"]) \
+                        or d_i["actions"] != (alt["actions"] if "actions" in k1 else base_i["actions"]):
+                    clause = "sub-task of a derived MDP does not keep that MDP's discount / dynamics / action sets"
             elif d_i["discount"] != base_i["discount"] or d_i["trans"] != base_i["trans"]:
                 clause = "sub-task of a used base does not keep the base discount / dynamics"
             # (2) its tabular views are those of ITS OWN components, not the base's cached ones
@@ -717,7 +742,7 @@ class Checker:
 
     def property_sim(self, case, sim, opt, ms):
         """clauses of the property on one recorded roll-out (limit ms); returns a failing clause or None"""
-        T = case["base"]["tables"]
+        T = eff_tables(case) if case["kind"] == "run" else case["base"]["tables"]
         terminal = opt["terminal"]
         st, fin = self.sim_tuple(sim)
         states = [x[0] for x in st] + [fin]
@@ -752,9 +777,14 @@ class Checker:
             ms = rec["max_steps"]
             detail = {"case": case, "max_steps": ms, "impl": rec}
             if len(rec["inner"]) != 1:
-                self.violation("C15:run_on:not-exactly-one-roll-out", detail, found=False)
+                if case.get("derive_first") and rec["raised"] == "TypeError":
+                    self.violation(SIG_REDERIVE, dict(detail, clause="Option.run_on on a derived MDP raises TypeError"), found=True, once_key="rederive")
+                else:
+                    self.violation("C15:run_on:not-exactly-one-roll-out", detail, found=False)
                 continue
             inner = rec["inner"][0]
+            if case.get("derive_first"):
+                self.bump("run_on_derived_mdp")
             clause = self.property_sim(case, inner, case["option"], ms)
             k = len(inner["states"])
             should_raise = (k + 1 >= ms)
@@ -1020,6 +1050,10 @@ def terms_for(case, res):
                 sl_, al_ = natlist(alt["state_list"]), natlist(alt["action_list"])
                 items.append("dump_views %s (match augment b (sel_ov A %s %s %s) with Some o1 => augment (touch %s o1) (sel_ov A %s %s %s) | None => None end) %s %s" % (
                     fuel, sl_, al_, coqlist(coqstr(k) for k in d["keys1"]), fuel, sl_, al_, coqlist(coqstr(k) for k in d["keys"]), nat(n), nat(nA)))
+            elif d["how"] == "sub_task_of_derived":
+                so = "(mkSubgoal %s %s %s %s)" % (natlist(d["initial_states"]), natlist(d["subgoals"]), vlib.b(d["include"]), oq_lit(d["maxr"]))
+                items.append("dump_views %s (match augment b (sel_ov A %s %s %s) with Some o1 => sub_task (touch %s o1) %s | None => None end) %s %s" % (
+                    fuel, natlist(alt["state_list"]), natlist(alt["action_list"]), coqlist(coqstr(k) for k in d["keys1"]), fuel, so, nat(n), nat(nA)))
             else:
                 so = "(mkSubgoal %s %s %s %s)" % (natlist(d["initial_states"]), natlist(d["subgoals"]), vlib.b(d["include"]), oq_lit(d["maxr"]))
                 items.append("dump_views %s (sub_task b %s) %s %s" % (fuel, so, nat(n), nat(nA)))
@@ -1029,10 +1063,16 @@ def terms_for(case, res):
         return ["dump_opt (sub_task %s %s) %s %s" % (b, so, nat(n), nat(nA))]
     if case["kind"] == "run":
         out = []
+        df = case.get("derive_first")
         for rec in res["runs"]:
             stream = stream_lit(rec["inner"][0]) if rec["inner"] else "[]"
-            out.append("run_dump %s %s %s %s %s %s" % (b, blist(case["option"]["terminal"]), nat(rec["max_steps"]), stream,
-                                                      nat(case["s0"]), coqlist(dist_lit(r) for r in case["option"]["policy"])))
+            args = "%s %s %s %s %s" % (blist(case["option"]["terminal"]), nat(rec["max_steps"]), stream,
+                                       nat(case["s0"]), coqlist(dist_lit(r) for r in case["option"]["policy"]))
+            if df:
+                out.append("match augment %s (sel_ov %s [] [] %s) with Some o1 => run_dump (touch %s o1) %s | None => (2%%nat, None, None) end" % (
+                    b, tables_lit(df["alt"]), coqlist(coqstr(k) for k in df["keys"]), nat(2 * n + 6), args))
+            else:
+                out.append("run_dump %s %s" % (b, args))
         return out
     if case["kind"] == "smdp":
         m = "(mkSMDP %s %s %s %s)" % (b, coqlist(opt_lit(o) for o in case["options"]), nat(case["n"]), vlib.b(case["include"]))
